@@ -367,18 +367,31 @@ ArmAll(st, s, tids, i) ==
 
 \* invoked services (async engine: one task per invocation, created at entry; the harness logs the
 \* _invoke_service call).  A missing implementation aborts the entry.
-RECURSIVE InvokeAll(_, _, _, _)
-InvokeAll(st, s, invs, i) ==
+\* Sync engine: a (plain callable) service is CALLED at the invocation; its outcome is sent at once - it is queued
+\* behind the event being processed - and a failure nobody handles fails the interpreter (_fail).
+SvcKindOf(src) == IF src \in DOMAIN D.serviceKind THEN D.serviceKind[src] ELSE "driver"
+RECURSIVE InvokeAll(_, _, _, _, _)
+InvokeAll(st, s, invs, i, eng) ==
   IF i > Len(invs) \/ Failed(st) THEN st
   ELSE IF invs[i].src \notin D.serviceImpl
        THEN [st EXCEPT !.err = <<"ImplementationMissingError", "service", invs[i].src>>]
-       ELSE InvokeAll(Log(st, L("invoke", s, invs[i].id, {})), s, invs, i + 1)
+       ELSE LET st1 == Log(st, L("invoke", s, invs[i].id, {}))
+                kind == SvcKindOf(invs[i].src)
+            IN IF eng = "sync" /\ kind \in {"ok", "fail"}
+               THEN LET ok == kind = "ok"
+                        ev == Ev(IF ok THEN D.doneInvokeEv[invs[i].id] ELSE D.errorInvokeEv[invs[i].id], "done", invs[i].id)
+                        st2 == Log(Enqueue(st1, ev, "sync"), L(IF ok THEN "svc_done" ELSE "svc_error", invs[i].id, "", {}))
+                        st3 == IF ok \/ invs[i].hasOnError \/ st2.status # "running" THEN st2
+                               ELSE Log(Log([st2 EXCEPT !.status = "error"], L("error", "RuntimeError", "", {})),
+                                        L("subscriber", "", "", st2.config))
+                    IN InvokeAll(st3, s, invs, i + 1, eng)
+               ELSE InvokeAll(st1, s, invs, i + 1, eng)
 
 Schedule(st, s, eng) ==
   IF Failed(st) THEN st
   ELSE LET st1 == Log(st, L("sched", s, "", {}))
        IN IF eng = "pure" THEN st1
-          ELSE InvokeAll(ArmAll(st1, s, D.tix[s].after, 1), s, D.invokes[s], 1)
+          ELSE InvokeAll(ArmAll(st1, s, D.tix[s].after, 1), s, D.invokes[s], 1, eng)
 CancelTasks(st, s) == Log(st, L("cancel", s, "", {}))
 
 RECURSIVE Rearm(_, _, _, _)
